@@ -28,12 +28,13 @@ struct WorkC {
   std::vector<SplineC> pool;
   std::vector<ThreadC> threads;
   i64 repeats = 3;
+  i64 big = 0;  // number of points of a second, LARGE shared grid (0: none)
   template <class A>
-  void io(A &a) { a("g", g); a("pool", pool); a("threads", threads); a("repeats", repeats); }
+  void io(A &a) { a("g", g); a("pool", pool); a("threads", threads); a("repeats", repeats); a("big", big); }
 };
-enum { T_EVAL, T_COPY_DESTROY, T_ASSIGN, T_ADD, T_SUB, T_MUL, T_APPLY, T_APPLY_SPLINEOP, T_LINFORM, T_BILFORM, T_GENERATE, T_PRED, T_LINCOMB, T_SUPPORT, T_INTEGRATE, T_GRID_COPY, T_EQUAL_GRID_MIX, T_LOCAL_GRID_MIX, T_HIGH_ORDER_OPS, T_EVAL_SWEEP, T_COUNT };
+enum { T_EVAL, T_COPY_DESTROY, T_ASSIGN, T_ADD, T_SUB, T_MUL, T_APPLY, T_APPLY_SPLINEOP, T_LINFORM, T_BILFORM, T_GENERATE, T_PRED, T_LINCOMB, T_SUPPORT, T_INTEGRATE, T_GRID_COPY, T_EQUAL_GRID_MIX, T_LOCAL_GRID_MIX, T_HIGH_ORDER_OPS, T_EVAL_SWEEP, T_BIG_GRID, T_COUNT };
 static const char *tname(int c) {
-  static const char *n[] = {"evaluate", "copy+destroy", "copy-assign", "a+b", "a-b", "a*b", "apply-operator", "apply-spline-operator", "linear-form", "bilinear-form", "generateBSplines", "predicates", "linearCombination", "support-algebra", "integrate", "grid-copy", "mix-with-equal-grid-object", "mix-with-thread-local-grid", "high-order-operators", "evaluation-sweep-of-one-shared-spline"};
+  static const char *n[] = {"evaluate", "copy+destroy", "copy-assign", "a+b", "a-b", "a*b", "apply-operator", "apply-spline-operator", "linear-form", "bilinear-form", "generateBSplines", "predicates", "linearCombination", "support-algebra", "integrate", "grid-copy", "mix-with-equal-grid-object", "mix-with-thread-local-grid", "high-order-operators", "evaluation-sweep-of-one-shared-spline", "large-shared-grid"};
   return c >= 0 && c < T_COUNT ? n[c] : "?";
 }
 
@@ -56,8 +57,27 @@ struct Pool {
   bi::LinearForm<bo::Position<1>> lf{bo::X<1>{}};
   bi::BilinearForm<bo::Derivative<1>, bo::Derivative<1>> bf{bo::Dx<1>{}, bo::Dx<1>{}};
   bi::ScalarProduct sp{};
+  // a LARGE shared grid (hundreds of intervals) with splines spanning all of it and parts of it: per-interval state that
+  // a change keeps in small process-wide tables (direct-mapped caches indexed by the interval number, ring buffers)
+  // is evicted and refilled here while other threads still use it
+  static std::vector<D> big_points(i64 n) {
+    std::vector<D> v;
+    D x = -8.0;
+    for (i64 i = 0; i < std::max<i64>(n, 3); i++) { v.push_back(x); x += (i % 3 == 0 ? 0.125 : i % 3 == 1 ? 0.25 : 0.0625); }
+    return v;
+  }
+  template <size_t o>
+  static bspline::Spline<D, o> big_spline(const bspline::support::Grid<D> &g, size_t s, size_t e) {
+    std::vector<std::array<D, o + 1>> co(e - s - 1);
+    for (size_t i = 0; i < co.size(); i++) for (size_t k = 0; k <= o; k++) co[i][k] = (D)((int)((i * 7 + k * 3 + s) % 17) - 8) / 4.0;
+    return bspline::Spline<D, o>(bspline::support::Support<D>(g, s, e), co);
+  }
+  bspline::support::Grid<D> gridBig;
+  std::vector<bspline::Spline<D, 1>> big1;  // [0] whole grid, then blocks
+  std::vector<bspline::Spline<D, 2>> big2;
+  bspline::BSplineGenerator<D> genBig;
   Pool(const WorkC &c, const bspline::support::Grid<D> &g)
-      : grid(g), grid2(std::vector<D>(g.begin(), g.end())), gen(std::vector<D>(g.begin(), g.end()), g), sop(make_spline<D, 1>(g, c.pool.empty() ? SplineC() : c.pool[0])) {
+      : gridBig(big_points(c.big)), genBig(big_points(c.big)), grid(g), grid2(std::vector<D>(g.begin(), g.end())), gen(std::vector<D>(g.begin(), g.end()), g), sop(make_spline<D, 1>(g, c.pool.empty() ? SplineC() : c.pool[0])) {
     for (size_t i = 0; i < c.pool.size(); i++) {
       s0.push_back(make_spline<D, 0>(g, c.pool[i]));
       s1.push_back(make_spline<D, 1>(g, c.pool[i]));
@@ -67,6 +87,9 @@ struct Pool {
       s1b.push_back(make_spline<D, 1>(grid2, c.pool[i]));
       s2b.push_back(make_spline<D, 2>(grid2, c.pool[i]));
     }
+    const size_t nb = gridBig.size();
+    big1.push_back(big_spline<1>(gridBig, 0, nb)); big2.push_back(big_spline<2>(gridBig, 0, nb));
+    for (size_t k = 0; k < 4; k++) { size_t s = k * (nb / 5), e = std::min(nb, s + nb / 2 + 2); big1.push_back(big_spline<1>(gridBig, s, e)); big2.push_back(big_spline<2>(gridBig, s, e)); }
   }
 };
 template <class S>
@@ -140,6 +163,20 @@ static void run_ops(const Pool &P, const ThreadC &t, std::vector<D> &out) {
         if (j & 1) sweep(P.s3[0]); else sweep(P.s1[0]);
         break;
       }
+      case T_BIG_GRID: {
+        if (P.gridBig.size() < 16) break;
+        const auto &b1 = P.big1[i % P.big1.size()];
+        const auto &b2 = P.big2[j % P.big2.size()];
+        switch ((i + j) % 6) {
+          case 0: fold(out, bo::X<1>{} * b1); break;
+          case 1: fold(out, bo::X<2>{} * b2); break;
+          case 2: out.push_back(P.lf(b1)); out.push_back(bi::LinearForm{bo::X<2>{} * bo::Dx<1>{}}(b2)); break;
+          case 3: out.push_back(bi::BilinearForm{bo::X<1>{}, bo::X<2>{}}(b1, b2)); out.push_back(bi::BilinearForm{bo::X<1>{}}(b2, b2)); break;
+          case 4: { auto bs = P.genBig.generateBSplines<2>(); out.push_back((D)bs.size()); fold(out, bs[(i * 37 + j) % bs.size()]); fold(out, bs.back()); break; }
+          default: { D acc = 0; const size_t np = P.gridBig.size(); for (size_t k = 0; k < 600; k++) { size_t iv = (i * 41 + k) % (np - 1); acc += b2(P.gridBig[iv] + (P.gridBig[iv + 1] - P.gridBig[iv]) * 0.375); } out.push_back(acc); fold(out, P.op1 * b2); break; }
+        }
+        break;
+      }
       case T_HIGH_ORDER_OPS: {
         // template instances that the tests and examples never use (lazily initialised tables would be filled here)
         switch (j % 6) {
@@ -209,6 +246,7 @@ static WorkC cold_start_case(int nthreads) {
     c.threads.push_back(th);
   }
   c.repeats = 2;
+  c.big = 600;
   return c;
 }
 
@@ -237,6 +275,7 @@ int main(int argc, char **argv) {
       c.threads.push_back(th);
     }
     c.repeats = 3;
+    c.big = chance(55) ? pick(270, 700) : 0;
     return c;
   });
   vf::add_enum_sub("cold-start",
